@@ -190,6 +190,9 @@ type wildGen struct {
 }
 
 func (w *wildGen) atom() J {
+	if w.r.Intn(25) == 0 { // control statements wherever the parser takes an expression (break / continue are expressions to it)
+		return J{"k": []string{"brk", "cnt"}[w.r.Intn(2)]}
+	}
 	switch w.r.Intn(10) {
 	case 0:
 		return nInt([]int64{0, 1, -1, 2, 64, 9223372036854775807, -9223372036854775808}[w.r.Intn(7)])
@@ -254,6 +257,9 @@ func (w *wildGen) expr(d int) J {
 		ps := []string{"p", "q", ".."}[:w.r.Intn(4)%3+0]
 		return nFn("", ps, len(ps) > 0 && ps[len(ps)-1] == "..", w.r.Intn(2) == 0, w.block(d-1))
 	case 13:
+		if w.r.Intn(4) == 0 { // an if whose branch returns: a `return` value reaching an operand / element / argument position
+			return nIfElse(w.expr(d-1), []any{nRet(w.expr(d - 1))}, w.block(d-1))
+		}
 		return nIfElse(w.expr(d-1), w.block(d-1), w.block(d-1))
 	case 14:
 		return nAsg(w.r.Intn(3) == 0, w.expr(d-1), w.expr(d-1))
@@ -397,6 +403,18 @@ func checkC07(c *Ctx) {
 		for _, use := range []string{"m(1)", "m(1, 2)", "m()", "m(m(1))", "x = m", "m.x = macro(a) {quote(1)}", `[m(1), m("s")]`, "func() {m(1)}()"} {
 			add("macro", fmt.Sprintf("m = macro(a) {%s}; %s", body, use))
 			add("macro", fmt.Sprintf("m = macro(a, b) {%s}; %s", body, use))
+		}
+	}
+	// 2c. control values (break, continue, a returning if) in every value position, at top level, in a loop, in a function
+	for _, cv := range []string{"break", "continue", "if true {return 5} else {1}", "if x == x {break}"} {
+		for _, use := range []string{"[C] == [C]", "[C] < [C]", "{1: C}", "{C: 1}", "g(C)", "g(C, C)", "[C][0]", "len([C])", "first([C])", "rest([C, C])", "m = {}; m[[C]] = 1; m", "y = [C]; y + y",
+			"min(C, 1)", "max([C])", "println([C])", "join([C])", "[C] + [1]", "[[C]] == [[C]]", "for z = [C] {z}", "catch([C])", "json([C])", "-[C][0]", "{1: [C]} == {1: [C]}",
+			"keys({[C]: 1})", "y = C", "y := [C, C]; y[1]", "[C][C]", "[1, 2][C:C]", "C + 1", "1 + C", "!C", "type(C)", "int(C)", "str([C])", "sprintf(\"%v\", [C])", "(x => x)(C)", "[C].k", "del([C])", "quote(C)", "eval(\"[C]\")"} {
+			u := strings.ReplaceAll(use, "C", cv)
+			add("control", "x = 1; g = func(a, ..) {[a, ..]}; "+u)
+			add("control", "x = 1; g = func(a, ..) {[a, ..]}; for i = 3 {"+u+"}")
+			add("control", "x = 1; g = func(a, ..) {[a, ..]}; f = func() {"+u+"}; f()")
+			add("control", "x = 1; g = func(a, ..) {[a, ..]}; f = func(n) {for i = n {"+u+"}}; f(2)")
 		}
 	}
 	// 3. wild untyped programs
